@@ -109,7 +109,7 @@ def run(chk):
                     n += 1
                     sub = os.path.join(work, 'rt%d' % n)
                     os.makedirs(sub)
-                    name = rng.choice(['data.bin', 'noext', 'a.tar', 'with space.txt'])
+                    name = rng.choice(['data.bin', 'noext', 'a.tar', 'with space.txt', 'old.zst', 'x.tar.zst', '.hidden', 'a.b.c', 'z.zst.zst'])
                     open(os.path.join(sub, name), 'wb').write(d)
                     cmds = []
                     a1 = ['compress', name] + ([] if default_out else ['arch.zst']) + ([] if opt is None else ['-l', str(opt)])
